@@ -34,25 +34,30 @@ type HarnessSpec struct {
 	SolverMs int               `json:"solver_ms"`
 	Bounds   string            `json:"bounds"`
 	Gen      *GenSpec          `json:"gen"`
+	CutCalls []string          `json:"cut_calls"` // package path prefixes: a path entering one of them ends there (outside the claim, counted)
 }
 
 // GenSpec generates work items from the registry of API message types found in the tree (after running init).
 type GenSpec struct {
-	Kind          string  `json:"kind"` // api_versions
+	Kind          string  `json:"kind"`  // api_versions
 	Which         string  `json:"which"` // requests | responses
 	QuickKeys     []int   `json:"quick_keys"`
 	ThoroughKeys  []int   `json:"thorough_keys"` // nil = all registered
 	QuickExtra    [][]int `json:"quick_extra"`
 	ThoroughExtra [][]int `json:"thorough_extra"`
 	FlexibleOnly  bool    `json:"flexible_only"`
+	// additional argument tuples generated only for non-flexible versions (deeper frames: tagged-field parsing
+	// of flexible versions multiplies paths by roughly 2 per body byte)
+	QuickExtraNonFlex    [][]int `json:"quick_extra_nonflexible"`
+	ThoroughExtraNonFlex [][]int `json:"thorough_extra_nonflexible"`
 }
 
 type PropSpec struct {
-	ID        string        `json:"id"`
-	Harnesses []HarnessSpec `json:"harnesses"`
-	Stubs     []string      `json:"stubs"`
-	Assume    []string      `json:"assumptions"`
-	Outside   []string      `json:"outside_bounds"`
+	ID        string            `json:"id"`
+	Harnesses []HarnessSpec     `json:"harnesses"`
+	Stubs     []string          `json:"stubs"`
+	Assume    []string          `json:"assumptions"`
+	Outside   []string          `json:"outside_bounds"`
 	Bounds    map[string]string `json:"bounds"`
 }
 
@@ -84,29 +89,30 @@ type Violation struct {
 }
 
 type ItemResult struct {
-	Item           WorkItem
-	Paths          int
-	PathsOK        int
-	Infeasible     int
-	Instrs         int64
-	Asserts        int
-	AssertsTrivial int
-	AssertsProved  int
-	UnknownBranch  int
-	AltDecided     int
-	AbsDecided     int
-	Inconclusive   []string
-	Violations     []Violation
-	Reached        map[string]int
-	Samples        []map[string]interface{}
-	Solver         SolverStats
-	AltSolver      SolverStats
-	Wall           time.Duration
-	Funcs          map[string]int
-	Fatal          string
-	Forks          int
+	Item             WorkItem
+	Paths            int
+	PathsOK          int
+	Infeasible       int
+	Instrs           int64
+	Asserts          int
+	AssertsTrivial   int
+	AssertsProved    int
+	UnknownBranch    int
+	AltDecided       int
+	AbsDecided       int
+	Inconclusive     []string
+	Violations       []Violation
+	Reached          map[string]int
+	Samples          []map[string]interface{}
+	Solver           SolverStats
+	AltSolver        SolverStats
+	Wall             time.Duration
+	Funcs            map[string]int
+	Fatal            string
+	Forks            int
 	DupViolations    int
 	InconclusiveMore int
+	Cuts             map[string]int
 }
 
 // ---------- running one work item ----------
@@ -204,6 +210,13 @@ func (ex *Exec) finishPath(st *State) {
 		return
 	case "violation":
 		return // already recorded by assert
+	case "cut":
+		if ex.out.Cuts == nil {
+			ex.out.Cuts = map[string]int{}
+		}
+		ex.out.Cuts[f.ID]++
+		ex.out.PathsOK++
+		return
 	}
 	pol := ex.policyOf(ex.out.Item.Spec, f.Kind)
 	switch pol {
@@ -413,6 +426,9 @@ func runProperty(p *Program, spec *PropSpec, opt RunOptions) []*ItemResult {
 			sets = [][]int{{}}
 		}
 		for _, a := range sets {
+			if f := os.Getenv("VH_ARGS"); f != "" && f != strings.Trim(fmt.Sprint(a), "[]") {
+				continue // debugging aid: VH_ARGS="28 1 0" runs only the item with these arguments
+			}
 			items = append(items, WorkItem{Spec: h, Args: a, Idx: len(items)})
 		}
 	}
@@ -462,6 +478,8 @@ func runProperty(p *Program, spec *PropSpec, opt RunOptions) []*ItemResult {
 				if h.SolverMs > 0 {
 					ex.cfg.TimeoutMs = h.SolverMs
 				}
+				ex.cfg.CutCalls = h.CutCalls
+				ex.cfg.SplitCutLarge = h.Policy["splitcap"] == "cut"
 				to := h.Timeout
 				if to == 0 {
 					to = 600
@@ -485,8 +503,8 @@ func runProperty(p *Program, spec *PropSpec, opt RunOptions) []*ItemResult {
 				mu.Lock()
 				results[i] = r
 				if opt.Verbose {
-					fmt.Fprintf(os.Stderr, "  item %s%v: paths=%d ok=%d viol=%d inconcl=%d asserts=%d(proved %d) queries=%d solver=%.1fs wall=%.1fs %s\n",
-						h.Func, it.Args, r.Paths, r.PathsOK, len(r.Violations), len(r.Inconclusive), r.Asserts, r.AssertsProved, r.Solver.Queries, r.Solver.Time.Seconds(), r.Wall.Seconds(), firstLine(r.Fatal))
+					fmt.Fprintf(os.Stderr, "  item %s%v: paths=%d ok=%d viol=%d inconcl=%d asserts=%d(proved %d) queries=%d solver=%.1fs model=%.1fs alt=%.1fs wall=%.1fs %s\n",
+						h.Func, it.Args, r.Paths, r.PathsOK, len(r.Violations), len(r.Inconclusive), r.Asserts, r.AssertsProved, r.Solver.Queries, r.Solver.Time.Seconds(), r.Solver.ModelTime.Seconds(), r.AltSolver.Time.Seconds(), r.Wall.Seconds(), firstLine(r.Fatal))
 					for _, m := range r.Inconclusive {
 						fmt.Fprintf(os.Stderr, "      inconclusive: %s\n", m)
 					}
@@ -520,14 +538,14 @@ func firstLine(s string) string {
 // ---------- evidence ----------
 
 type KnownFinding struct {
-	Property string `json:"property"`
-	ID       string `json:"id"`
-	Harness  string `json:"harness"`
-	Assert   string `json:"assertion"`
-	ArgsLike []int  `json:"args,omitempty"` // optional: exact args
-	Status   string `json:"status"`         // open | fixed
-	Commit   string `json:"commit,omitempty"`
-	What     string `json:"what"`
+	Property string                 `json:"property"`
+	ID       string                 `json:"id"`
+	Harness  string                 `json:"harness"`
+	Assert   string                 `json:"assertion"`
+	ArgsLike []int                  `json:"args,omitempty"` // optional: exact args
+	Status   string                 `json:"status"`         // open | fixed
+	Commit   string                 `json:"commit,omitempty"`
+	What     string                 `json:"what"`
 	Pred     map[string]interface{} `json:"predicate,omitempty"`
 }
 
